@@ -407,7 +407,7 @@ func TestConfigPoints(t *testing.T) {
 	if evid.ReplayPath() != "" {
 		t.Skip()
 	}
-	evid.Check(t, "config-points", evid.Scale(10000, 400000), prop)
+	evid.Check(t, "config-points", evid.Scale(10000, 240000), prop)
 }
 
 func TestReplay(t *testing.T) {
